@@ -38,6 +38,46 @@ def spins(j):
     return [-j + k for k in range(int(2 * j) + 1)]
 
 
+def decay_momentum(repo, chk):
+    """q0 / q of a vertex as the barrier factors receive them: HelicityDecay.get_relative_momentum(2) interpreted at
+    concrete rational masses, above and below the threshold of the vertex"""
+    CORE_ = "tf_pwa/amp/core.py"
+    cls = repo.cls(CORE_ + "::HelicityDecay")
+    chk.rule("Q-mom", "HelicityDecay.get_relative_momentum2 / get_relative_momentum interpreted at rational masses: |q|^2 = lambda(m0^2, m1^2, m2^2) / (4 m0^2) also for a nominal mass below m1 + m2 (analytic continuation: negative, not clamped to 0 - the Blatt-Weisskopf numerator of a sub-threshold resonance depends on it), and |q| = sqrt(|q|^2) above threshold")
+    pm = cls.methods.get("_get_particle_mass")
+    if pm is None:
+        raise AnalysisError("anchor vanished: HelicityDecay._get_particle_mass")
+    cases = [(sp.Integer(3), sp.Integer(1), sp.Integer(1)), (sp.Rational(3, 2), sp.Integer(1), sp.Integer(1)), (sp.Integer(5), sp.Integer(3), sp.Integer(1)), (sp.Rational(5, 2), sp.Integer(2), sp.Integer(1)), (sp.Integer(2), sp.Integer(1), sp.Integer(1))]
+    for which in ("get_relative_momentum2", "get_relative_momentum"):
+        fn = cls.methods.get(which)
+        if fn is None:
+            raise AnalysisError("anchor vanished: HelicityDecay.%s" % which)
+        for m0, m1, m2 in cases:
+            lam = (m0 ** 2 - (m1 + m2) ** 2) * (m0 ** 2 - (m1 - m2) ** 2) / (4 * m0 ** 2)
+            if which == "get_relative_momentum" and lam < 0:
+                continue   # |q| below threshold is clamped by convention (documented in get_relative_p)
+            core, b, c = SelfObj(None, {"tag": "core"}), SelfObj(None, {"tag": "b"}), SelfObj(None, {"tag": "c"})
+            masses = {id(core): m0, id(b): m1, id(c): m2}
+
+            def mass_hook(tr, args, kwargs, node, _m=masses):
+                a = [x for x in args if not (isinstance(x, SelfObj) and x.cls is cls)]
+                return _m[id(a[0])]
+
+            tr = Translator(repo, hooks={pm.key: mass_hook, "concrete_zeros": True}, max_depth=4)
+            so = SelfObj(cls, {"core": core, "outs": [b, c], "below_threshold": False})
+            try:
+                out = tr.call_fn(fn, [{}, False], self_obj=so)
+            except Unmodelled as e:
+                raise AnalysisError("HelicityDecay.%s cannot be interpreted at masses (%s, %s, %s): %s" % (which, m0, m1, m2, e))
+            want = lam if which.endswith("2") else sp.sqrt(lam)
+            got = sp.simplify(sp.sympify(out))
+            ok = sp.simplify(got - want) == 0
+            chk.oblige("Q-mom", "%s at (m0, m1, m2) = (%s, %s, %s) == %s" % (which, m0, m1, m2, want), ok)
+            if not ok:
+                chk.violation("Q-mom", fn.key, "%s@%s-%s-%s" % (which, m0, m1, m2), "%s at (m0, m1, m2) = (%s, %s, %s) evaluates to %s, the two-body momentum%s is %s%s" % (which, m0, m1, m2, got, " squared" if which.endswith("2") else "", want, " (negative below threshold: a nominal mass outside the kinematic window must not be clamped)" if want.is_negative else ""), file=CORE_, line=fn.lineno)
+    chk.require_count("Q-mom", 8)
+
+
 def run(repo, chk, tier):
     from ..cacheown import check_persistent_state
 
@@ -47,6 +87,7 @@ def run(repo, chk, tier):
     cg_matrix(repo, chk)
     barrier(repo, chk)
     barrier_options(repo, chk)
+    decay_momentum(repo, chk)
     decay_amplitudes(repo, chk)
     # theta_k of the closed form is the helicity angle after chained boosts; q0 / p0 of the barrier factors follow the
     # current resonance mass: frame typing of the chain boosts and soundness of memoisation
